@@ -7,7 +7,7 @@
    [run_case] is the wire entry point. *)
 From Coq Require Import ZArith List Bool.
 Import ListNotations.
-From GV Require Import Common.Wire gen.Gen_tables C12.Model.
+From GV Require Import Common.Wire gen.Gen_tables C12.Model gen.Gen_codecs C02.CodecModel.
 Open Scope Z_scope.
 
 (* ================================================================= 1. naming *)
@@ -276,5 +276,7 @@ Definition run_case (t : tree) : tree :=
                    | Some r => zs [of_bool (in_scope r); of_bool (pair_ok r); of_bool (ctor_ok r)]
                    | None => err (-3)
                    end
+  (* field-level codec table: for (class, version, key): written on every saver path? on some path? value depends on a test? *)
+  | T 5 [T c _; T v _; T k _] => zs (codec_query c v k)
   | _ => err (-2)
   end.
